@@ -572,8 +572,12 @@ class PolarsModel(data_algebra.data_model.DataModel):
             "concat": lambda *args: pl.concat_str(args),
             "fmax": lambda *args: pl.max_horizontal(args),
             "fmin": lambda *args: pl.min_horizontal(args),
-            "maximum": lambda *args: pl.max_horizontal(args),
-            "minimum": lambda *args: pl.min_horizontal(args),
+            "maximum": lambda *args: pl.when(_reduce_or(*[a.is_null() for a in args]))
+            .then(pl.lit(None))
+            .otherwise(pl.max_horizontal(args)),  # propagate missing (fmax ignores it)
+            "minimum": lambda *args: pl.when(_reduce_or(*[a.is_null() for a in args]))
+            .then(pl.lit(None))
+            .otherwise(pl.min_horizontal(args)),  # propagate missing (fmin ignores it)
             "+": _reduce_plus,
             "*": _reduce_times,
             "and": _reduce_and,
@@ -1030,6 +1034,11 @@ class PolarsModel(data_algebra.data_model.DataModel):
             coalesce_columns = set(op.sources[0].columns_produced()).intersection(
                 op.sources[1].columns_produced()
             ) - set(op.on_a)
+            if how == "outer":
+                # a full join keeps both key columns: the row of an unmatched right key carries its key value in the right copy
+                coalesce_columns = coalesce_columns.union(
+                    [c_a for c_a, c_b in zip(op.on_a, op.on_b) if c_a == c_b]
+                )
             orphan_keys = [c for c in op.on_b if c not in set(op.on_a)]
             input_right = inputs[1]
             if len(orphan_keys) > 0:
